@@ -84,6 +84,43 @@ Proof.
 Qed.
 
 (* ------------------------------------------------------------------------------------------------
+   ... and how the connection ends.  After the drain the read side is idle with an incomplete buffer; when the peer
+   then closes, the framed stream ends cleanly iff nothing of a further response had arrived, and with the error
+   "bytes remaining on stream" otherwise. *)
+Lemma fr_drain_pending_state : forall fuel st rd D, data_only rd -> rinv st -> rf_errored st = false -> Chain D (rf_buf st) ->
+  forall fs st' rd', fr_drain fuel st rd = (fs, PPending, st', rd') ->
+  rf_eof st' = false /\ rf_errored st' = false /\ rf_readable st' = false /\ decode (rf_buf st') = DNone.
+Proof.
+  induction fuel as [|fuel IH]; intros st rd D Hdata Hinv Herr HC fs st' rd' H.
+  - cbn in H. discriminate.
+  - cbn [fr_drain] in H. destruct (fr_poll st rd) as [[st1 o1] rd1] eqn:Ep.
+    destruct (fr_poll_inv rd st D Hdata Hinv Herr HC _ _ _ Ep) as [used [Hu [HC1 [Hby [Heof1 [Hpend [Hok [Herr1 [Hnn [Hnp [Hd1 Hcls]]]]]]]]]]].
+    destruct Hcls as [->|[[raw [v ->]]|[-> Hde]]].
+    + injection H as _ <- <-. destruct (Hpend eq_refl) as [Hdn [He1 Hr1]]. auto.
+    + destruct (fr_drain fuel st1 rd1) as [[[fs1 o2] st2] rd2] eqn:Ed. injection H as _ -> <- <-.
+      assert (Herr1' : rf_errored st1 = false) by (destruct (rf_errored st1); [specialize (Herr1 eq_refl); discriminate|reflexivity]).
+      exact (IH st1 rd1 _ Hd1 (Hok Herr1') Herr1' HC1 _ _ _ Ed).
+    + injection H as _ Hx _ _. discriminate.
+Qed.
+
+Lemma conformant_then_eof_lemma : forall s P fuel rd fs st' more,
+  conformant s -> decode P = DNone -> data_only rd -> bytes_of rd = wire s ++ P ->
+  fr_drain fuel rf_init rd = (fs, PPending, st', []) ->
+  fs = expected s /\
+  fr_poll st' (REof :: more) =
+    match P with
+    | [] => (mk_rf true false false [], PNone, more)
+    | _ => (mk_rf true true true P, PItem IErrRemaining, more)
+    end.
+Proof.
+  intros s P fuel rd fs st' more Hs HP Hd Hb H.
+  destruct (conformant_stream_partial_lemma s P fuel rd fs st' Hs HP Hd Hb H) as [-> Hbuf].
+  split; [reflexivity|].
+  destruct (fr_drain_pending_state fuel rf_init rd [] Hd rinv_init eq_refl (Chain_nil _) _ _ _ H) as [He [Hr [Hrd Hdn]]].
+  rewrite (eof_verdict_lemma st' more He Hr Hrd Hdn), Hbuf. reflexivity.
+Qed.
+
+(* ------------------------------------------------------------------------------------------------
    The same for n successive polls of the read side by anybody (fr_trace) -- the reference against which
    SessionProofs.v states what the streams of a whole session hand out. *)
 
